@@ -200,10 +200,21 @@ Definition step_facts (C : certs) (F : list fact) (i : inst) : list fact :=
     if i_wrd i then filter not_rd F else F.
 
 (* ---- justification of a changed instruction *)
+Definition operand_eqx (a b : operand) : bool :=
+  match a, b with
+  | OLit x, OLit y => x =? y
+  | OVar x, OVar y => N.eqb x y
+  | OLab x, OLab y => N.eqb x y
+  | _, _ => false
+  end.
+Fixpoint list_eqb {A} (eqb : A -> A -> bool) (l m : list A) : bool :=
+  match l, m with
+  | [], [] => true
+  | x :: l', y :: m' => eqb x y && list_eqb eqb l' m'
+  | _, _ => false
+  end.
 Definition inst_eqb (a b : inst) : bool :=
-  String.eqb (i_op a) (i_op b) && (List.length (i_args a) =? List.length (i_args b))%nat &&
-  forallb (fun p => operand_eqb (fst p) (snd p)) (combine (i_args a) (i_args b)) &&
-  (List.length (i_outs a) =? List.length (i_outs b))%nat && forallb (fun p => N.eqb (fst p) (snd p)) (combine (i_outs a) (i_outs b)) &&
+  String.eqb (i_op a) (i_op b) && list_eqb operand_eqx (i_args a) (i_args b) && list_eqb N.eqb (i_outs a) (i_outs b) &&
   Bool.eqb (i_wm a) (i_wm b) && Bool.eqb (i_wrd a) (i_wrd b) && (i_id a =? i_id b).
 
 (* R1: mcopy d, s, n  ~>  op2 d, s2, n   given a valid fact  mem[s..s+n) = op2-source[s2..s2+n)
@@ -258,7 +269,8 @@ Definition fact_eqb (a b : fact) : bool :=
   end.
 Definition fact_in (fc : fact) (F : list fact) : bool := existsb (fact_eqb fc) F.
 Definition subset (A B : list fact) : bool := forallb (fun fc => fact_in fc B) A.
-Definition exit_facts (C : certs) (F0 : list fact) (b : list inst) : list fact := fold_left (step_facts C) b F0.
+(* facts at the end of the block body (the terminator itself is not an `exec` step) *)
+Definition exit_facts (C : certs) (F0 : list fact) (b : list inst) : list fact := fold_left (step_facts C) (removelast b) F0.
 Definition succs (b : list inst) : list N :=
   match rev b with
   | t :: _ => flat_map (fun o => match o with OLab l => [l] | _ => [] end) (i_args t)
